@@ -119,6 +119,23 @@ func show(s string) string {
 }
 
 // checkRecord compares one returned record with the reference reading of the line.
+// headerOutsideRFC reports whether the header part of the line (everything in front of the message) holds invalid UTF-8 or
+// is by itself longer than what a record may be once its message is cut to the message limit.
+func headerOutsideRFC(line string, ref refRecord) bool {
+	headerLen := len(line) - len(ref.msg)
+	if headerLen < 0 || headerLen > len(line) {
+		return false
+	}
+	if !utf8.ValidString(line[:headerLen]) {
+		return true
+	}
+	msgLen := len(ref.msg)
+	if msgLen > defs.InputLogMaxMessageBytes {
+		msgLen = defs.InputLogMaxMessageBytes
+	}
+	return headerLen+msgLen > defs.InputLogMaxRecordBytes
+}
+
 func checkRecord(e *env, line string, ref refRecord, rec *base.LogRecord, msgLimit int) (string, string) {
 	switch ref.class {
 	case clsPriTooLarge:
@@ -133,6 +150,13 @@ func checkRecord(e *env, line string, ref refRecord, rec *base.LogRecord, msgLim
 			return "faithful:no-msg-line-dropped", fmt.Sprintf("line %s is well-formed RFC 5424 without the optional MSG part (HEADER SP STRUCTURED-DATA [SP MSG]) but was dropped", show(line))
 		}
 	case clsWellFormed:
+		if rec == nil && headerOutsideRFC(line, ref) {
+			// RFC 5424 restricts header fields to printable US-ASCII and the record to the configured size: a header holding
+			// invalid UTF-8, or a header that alone exceeds the record limit, is not a well-formed line in the sense of the
+			// statement. Either answer is accepted for it: parsed faithfully (checked below) or rejected and counted (the
+			// accounting oracle still applies).
+			return "", ""
+		}
 		if rec == nil {
 			return "faithful:wellformed-dropped", fmt.Sprintf("well-formed line %s was dropped", show(line))
 		}
@@ -191,8 +215,8 @@ func checkLine(e *env, line string, msgLimit int, genTokens *[6]string, genMsg *
 	if key, msg := checkRecord(e, line, ref, rec, msgLimit); key != "" {
 		return key, msg
 	}
-	// overflow label
-	if ref.class == clsWellFormed {
+	// overflow label (a line rejected because its header is outside RFC 5424 / the record limit is only accounted as dropped)
+	if ref.class == clsWellFormed && !(rec == nil && headerOutsideRFC(line, ref)) {
 		wantOv := uint64(0)
 		if len(ref.msg) > msgLimit {
 			wantOv = 1
